@@ -207,13 +207,14 @@ def tlc_parallel(jobs, par=None):
     return res
 
 
-def check_records(module, consts, recs, spec="CheckSpec", chunks=None, timeout=900, name=None, extra_files=None):
+def check_records(module, consts, recs, spec="CheckSpec", chunks=None, timeout=2400, name=None, extra_files=None):
     """Validate records (list of dicts, produced by the real code) with the ASSUME-based checker module `module`
     (see spec/FragCheck.tla). Returns (n_checked, [(index, problems)], [TlcResult])."""
     from concurrent.futures import ThreadPoolExecutor
     if not recs:
         return 0, [], []
-    chunks = chunks or min(NCPU, max(1, len(recs) // 200))
+    # at most 2500 records per TLC run (a run judging 7000 fragmentation records took more than 15 minutes on a loaded machine)
+    chunks = chunks or max(min(NCPU, max(1, len(recs) // 200)), (len(recs) + 2499) // 2500)
     per = (len(recs) + chunks - 1) // chunks
     jobs = []
     for c in range(chunks):
